@@ -34,7 +34,14 @@ def run_selftest(prop, root_src='/repo'):
                 items.append(('seeded', d, 'M', None, os.path.join(sd, d, 'patch.diff'), None))
     bd = os.path.join(VERIF, 'selftest', 'benign')
     if os.path.isdir(bd):
-        for d in sorted(os.listdir(bd)):
+        names = sorted(os.listdir(bd))
+        if os.environ.get('LECVERIF_SELFTEST_BENIGN', 'sample') != 'all':
+            # the complete refactorings x checks matrix is tools/benign_matrix.py (45 min, result in selftest/benign/MATRIX.txt); a run
+            # of one property's thorough tier takes every fifth refactoring, rotated by the property number, so that the twenty
+            # thorough runs together still apply each refactoring to four different checks
+            rot = int(prop[1:]) if prop[1:].isdigit() else 0
+            names = [d for i, d in enumerate(names) if (i + rot) % 5 == 0]
+        for d in names:
             if d.endswith('.diff'):
                 items.append(('benign', d, 'B', None, os.path.join(bd, d), None))
             elif os.path.exists(os.path.join(bd, d, 'patch.diff')):
